@@ -14,32 +14,6 @@ import Ctrmml.Proofs.BrkEq
 namespace Ctrmml.Globals
 open Ctrmml Ctrmml.Vgm
 
-/-- the driver as a function producing exporter operations -/
-abbrev XDriver (α : Type) := List (List Int) → α → List XOp
-
-def XDriver.fn {α} (drv : XDriver α) : DriverFn α := fun t i => (drv t i).map XOp.toOp
-
-/-- Globals reachable from the zero-initialised statics by any sequence of VGM exports (any
-input, tags, heap fill, clock), MDS exports and tool calls -/
-inductive Reachable {α} (drv : DriverFn α) : Globals → Prop
-  | init : Reachable drv initial
-  | vgm {g} (fill : Nat → UInt8) (clk : Clock) (inp : α) (tags : Tags) :
-      Reachable drv g → Reachable drv (compileVgm drv g fill clk inp tags).1
-  | mds {g} (song : Song) (d : Mds.DataInfo) (vol : Option Nat) :
-      Reachable drv g → Reachable drv (compileMds g song d vol).1
-  | tool {g} (name : Bytes) : Reachable drv g → Reachable drv (getExtension g name).1
-
-theorem reachable_tableOk {α} {drv : DriverFn α} {g : Globals} (h : Reachable drv g) : TableOk g := by
-  induction h with
-  | init => exact tableOk_initial
-  | vgm fill clk inp tags _ ih => exact pcmCtor_ok ih
-  | mds song d vol _ ih => exact ih
-  | tool name _ ih =>
-    unfold getExtension
-    split
-    · exact ih
-    · exact ih
-
 /-- export_history_independent: after ANY history of compilations in the process, compiling an
 input gives exactly the result it gives in a fresh process (for the same heap fill and clock): VGM
 file, MDS sequence and the tools' extension lookup. -/
@@ -61,11 +35,6 @@ example : Reachable (fun _ (n : Nat) => [Op.delay n]) (pcmCtor (pcmCtor initial)
   .vgm (fun _ => 0) ⟨[], []⟩ 7 ⟨[], [], [], [], [], [], [], [], [], [], []⟩ (.vgm (fun _ => 1) ⟨[], []⟩ 3 ⟨[], [], [], [], [], [], [], [], [], [], []⟩ .init)
 example : (pcmCtor initial).tablesInitialized = true ∧ initial.tablesInitialized = false := ⟨rfl, rfl⟩
 example : (volRow 255)[0]? = some (-128) ∧ (volRow 128)[255]? = some 63 ∧ (volRow 8)[0]? = some (-4) := by decide
-
-/-- the export writes a header of `vgm_export_header_size` bytes that holds the pokes -/
-theorem mdPokes_inside : ∀ p ∈ (Tables.md_vgm_pokes.map fun (w, off, v) =>
-    (off, if w = 4 then le32 v else if w = 2 then le16 v else [byteOf v])), p.1 + p.2.length ≤ Tables.vgm_export_header_size := by
-  decide
 
 /-- compile_defined: for every driver function, input, tags, clock and globals, the exported file
 is what the cell model of C08 (`Vgm.run`, which FAILS on an indeterminate cell) computes — whenever
@@ -186,5 +155,26 @@ example : BrkEq ⟨[(0, [⟨4, 0, 0, 0⟩, ⟨2, 36, 6, 0⟩, ⟨5, 3, 0, 0⟩, 
   unfold BrkEq; rfl
 example : (wbStep { core := { track := .root, position := 0, stack := [⟨.loop, .root, 1, 5, 1⟩] }, acc := {} }
     [⟨⟨5, 0, 0, 0⟩, 4294967295⟩]) = [⟨⟨5, 5, 0, 0⟩, 0⟩] := by decide
+
+/-- The part of the property that is NOT a theorem here: `MD_Driver` (the VGM side between driver
+construction and `stop()`) and the MML front end are not modelled in this tree, so that (i) the real
+driver reads nothing but its input and the volume table and emits only `VGM_Interface` operations,
+(ii) it is blind to `LOOP_BREAK` params and `play_time` stamps and to the empty tags `safe_get_tag`
+inserts, is an ASSUMPTION of the theorems above (the hypotheses `drv : XDriver α`, `hv`), decided per
+generated case by the history / same-object / fresh-process / heap-fill differential execution of the
+real code (checks/c16.py).  With `realDrv` standing for the real driver the full statement reads: -/
+def C16_full_statement : Prop :=
+  ∀ (realDrv : XDriver Song), (∀ t i, ∀ x ∈ realDrv t i, x.valid) →
+    (∀ t s s', BrkEq s s' → realDrv t s = realDrv t s') →
+    ∀ (g : Globals), Reachable realDrv.fn g →
+    ∀ (fill fill' : Nat → UInt8) (clk : Clock) (s s' : Song) (tags : Tags), BrkEq s s' →
+      (compileVgm realDrv.fn g fill clk s tags).2 = (compileVgm realDrv.fn initial fill' clk s' tags).2
+
+/-- …and it follows from the theorems above once the two assumptions on the driver are granted -/
+theorem C16_full_from_assumptions : C16_full_statement := by
+  intro realDrv hv hb g hg fill fill' clk s s' tags hss
+  rw [(C16_export_history_independent realDrv.fn g hg fill clk s tags ⟨[]⟩ {} none []).1]
+  rw [(C16_compile_defined realDrv hv initial fill' clk s tags).2.1 fill]
+  simp only [compileVgm, exportOps, XDriver.fn, hb _ s s' hss]
 
 end Ctrmml.Globals
